@@ -2,15 +2,16 @@
 (* all multigraphs with <= NV vertices / <= MaxE edges (built in key order), every origin/destination, k in 1..3,
    every similarity setting; the candidates are ALL simple origin-destination paths, considered in any order *)
 EXTENDS Ksp
-CONSTANTS NV, MaxE, Lens
+CONSTANTS NV, MaxE, Lens, TermNs,
+          Lean   \* TRUE: the non-default termination criteria are combined with accept-all and one threshold only
 VARIABLE building
 Empty == [nv |-> NV, E |-> <<>>, hd |-> <<>>, src |-> 1, dst |-> 2, dir |-> "fwd", wd |-> 1, wt |-> 0, rd |-> 1, rt |-> 1,
           sur |-> <<>>, acc |-> "none", delay |-> [i \in 1..8 |-> 0], ok |-> <<>>, bad |-> {}, h |-> [v \in 1..NV |-> 0],
-          itl |-> -1, szl |-> -1, init |-> <<0, 0>>, ties |-> FALSE]
+          itl |-> -1, szl |-> -1, init |-> <<0, 0>>, ties |-> FALSE, cu |-> <<1000, 1, 1000, 1>>]
 KeyLE(a, b) == a[1] < b[1] \/ (a[1] = b[1] /\ a[2] < b[2]) \/ (a[1] = b[1] /\ a[2] = b[2] /\ a[3] <= b[3])
 Init == /\ scn = Empty /\ queue = <<>> /\ g = <<>> /\ tree = <<>> /\ cur = 0 /\ lastE = 0 /\ todo = {} /\ iters = 0
         /\ outcome = "run" /\ pc = "build" /\ reop = FALSE
-        /\ kq = [k |-> 1, sim |-> [type |-> "accept_all", p |-> 0]] /\ accepted = <<>> /\ remaining = {} /\ kdone = FALSE
+        /\ kq = [k |-> 1, sim |-> [type |-> "accept_all", p |-> 0], term |-> [type |-> "exact", n |-> 0]] /\ accepted = <<>> /\ remaining = {} /\ kdone = FALSE
         /\ building = TRUE
 Frozen == UNCHANGED <<queue, g, tree, cur, lastE, todo, iters, outcome, pc, reop>>
 AddEdge == /\ building /\ Len(scn.E) < MaxE
@@ -27,23 +28,30 @@ Entries(es, i, prevSt, prevE) == IF i > Len(es) THEN <<>>
                                          trv |-> TrvCost(prevSt, prevE, es[i])]>> \o Entries(es, i + 1, NextSt(prevSt, prevE, es[i]), es[i])
 AllRoutes == {Entries(p, 1, scn.init, 0) : p \in PathsFrom(scn.src, {scn.src})}
 Sims == {[type |-> "accept_all", p |-> 0]} \cup {[type |-> t, p |-> p] : t \in {"edge_id", "distance"}, p \in {5, 9}}
+Terms == {[type |-> "exact", n |-> 0]} \cup {[type |-> t, n |-> n] : t \in {"max", "factor"}, n \in TermNs}
 Go == /\ building
-      /\ \E src \in 1..NV, dst \in 1..NV, k \in 1..3, sim \in Sims :
+      /\ \E src \in 1..NV, dst \in 1..NV, k \in 1..3, sim \in Sims, term \in Terms :
             /\ src # dst
+            /\ (Lean /\ term.type # "exact") => /\ (sim.type = "accept_all" \/ (sim.type = "edge_id" /\ sim.p = 5))
+                                                  /\ Len(scn.E) < MaxE
             /\ scn' = [scn EXCEPT !.src = src, !.dst = dst]
             /\ LET R == {Entries(p, 1, scn'.init, 0) : p \in PathsFrom(src, {src})}      \* evaluated on scn' below
                IN TRUE
-            /\ kq' = [k |-> k, sim |-> sim] /\ accepted' = <<>> /\ remaining' = {} /\ kdone' = FALSE
+            /\ kq' = [k |-> k, sim |-> sim, term |-> term] /\ accepted' = <<>> /\ remaining' = {} /\ kdone' = FALSE
       /\ building' = FALSE /\ Frozen
 (* first step after Go: the shortest route is accepted, all others become candidates *)
 Seed == /\ ~building /\ accepted = <<>> /\ ~kdone /\ AllRoutes # {}
         /\ \E first \in AllRoutes : /\ \A r \in AllRoutes : CostOf(first, 1) <= CostOf(r, 1)
-                                    /\ KStart(kq.k, kq.sim, first, AllRoutes \ {first})
+                                    /\ KStart(kq.k, kq.sim, kq.term, first, AllRoutes \ {first})
         /\ UNCHANGED scn /\ Frozen /\ UNCHANGED building
 Next == AddEdge \/ Go \/ Seed \/ (~building /\ accepted # <<>> /\ (Consider \/ KStop) /\ UNCHANGED <<scn, building>> /\ Frozen)
 MinOf(a, b) == IF a < b THEN a ELSE b
-ContractHolds == (~building /\ accepted # <<>>) => RoutesOK(accepted, kq.k, kq.sim)
-AtEnd == kdone => /\ Len(accepted) <= MinOf(kq.k, Cardinality(AllRoutes))
-                  /\ (kq.sim.type = "accept_all" => Len(accepted) = MinOf(kq.k, Cardinality(AllRoutes)))   \* rejects nothing for similarity
+Result == KResultOf(accepted, kq.k)
+ContractHolds == (~building /\ accepted # <<>>) => RoutesOK(Result, kq.k, kq.sim)
+AtEnd == kdone => /\ Len(Result) <= MinOf(kq.k, Cardinality(AllRoutes))
+                  /\ (kq.sim.type = "accept_all" => Len(Result) = MinOf(kq.k, Cardinality(AllRoutes)))   \* rejects nothing for similarity
+(* the held routes exceed k only under a criterion that cannot fire for this k *)
+OverK == Len(accepted) > kq.k => \/ kq.term.type = "max" /\ kq.term.n < kq.k
+                                 \/ kq.term.type = "factor" /\ kq.term.n * kq.k < kq.k
 Terminates == [][(~building /\ accepted # <<>> /\ ~kdone) => (Cardinality(remaining') < Cardinality(remaining) \/ kdone')]_<<kvars, scn, building>>
 =============================================================================
